@@ -308,3 +308,36 @@ Section DictPopLemmas.
   Proof. unfold dict_pop, dict_keys. induction d as [|[a b] t IH]; simpl; intros N; [reflexivity|].
     unfold eqb at 1. destruct (eq_dec k a) as [->|n]; [tauto|]. simpl. rewrite IH; [reflexivity|tauto]. Qed.
 End DictPopLemmas.
+
+(* ------------------------------------------------------------------ *)
+(* forallb refutation witnesses; dict_get on duplicate-free association lists *)
+Section ForallbDictLemmas.
+  Context {K V : Type} `{EqDec K}.
+  Implicit Types d : pydict K V.
+
+  Lemma forallb_false {A : Type} (f : A -> bool) (l : list A) :
+    forallb f l = false <-> exists x, In x l /\ f x = false.
+  Proof. induction l as [|y t IH]; simpl.
+    - split; [discriminate|intros [x [[] _]]].
+    - rewrite andb_false_iff, IH. split.
+      + intros [E|[x [I E]]]; [exists y; auto|exists x; auto].
+      + intros [x [[->|I] E]]; [left; exact E|right; exists x; auto]. Qed.
+
+  Lemma dict_get_NoDup_In d k v : NoDup (dict_keys d) -> In (k, v) d -> dict_get d k = Some v.
+  Proof. unfold dict_keys. induction d as [|[a b] t IH]; simpl; intros N I; [contradiction|].
+    inversion N as [|x l Hx N']; subst. destruct I as [E|I].
+    - inversion E; subst. destruct (eq_dec k k); congruence.
+    - destruct (eq_dec k a) as [->|n]; [|apply IH; assumption].
+      exfalso. apply Hx. apply in_map_iff. exists (a, v). split; [reflexivity|exact I]. Qed.
+
+  Lemma dict_get_NoDup_iff d k v : NoDup (dict_keys d) -> (dict_get d k = Some v <-> In (k, v) d).
+  Proof. intros N. split; [apply dict_get_In|apply dict_get_NoDup_In; exact N]. Qed.
+
+  Lemma mem_keys_dict_get d k : mem k (map fst d) = true <-> dict_get d k <> None.
+  Proof. rewrite mem_In. split.
+    - intros I E. apply dict_get_None in E. exact (E I).
+    - intros N. destruct (dict_get d k) as [v|] eqn:E; [|congruence]. exact (dict_get_Some_keys d k v E). Qed.
+
+  Lemma mem_keys_false_dict_get d k : mem k (map fst d) = false <-> dict_get d k = None.
+  Proof. rewrite mem_false, dict_get_None. reflexivity. Qed.
+End ForallbDictLemmas.
